@@ -133,6 +133,8 @@ type policy struct {
 	// emulate, then step after step, pointing the pointer registers into the
 	// data of the image (few other commands, no stream faults)
 	lastFind      string // the previous single-word search pattern
+	prevMode      string // mode at the previous command prompt
+	memReopen     int    // after leaving a memory view: step, then open it again
 	walker        bool
 	walkStage     int
 	lastBlockMove bool
@@ -287,7 +289,7 @@ func (p *policy) disCommand() string {
 		return spaced(r, pick(r, "entrypoint", "entry"))
 	case 4:
 		pats := []string{"add", "x1", "Block", "ld", "^$", "0x", "x[0-9]+, x0", ".", "zzzz", "Block 1", "s[bhwd] ", "\\|", "[", "j", "beq|bne",
-			".*", "x*", "q?", "(add|sub|ld)", "x1,", "x2,", "x3,", "1:", "0:", "x1,|x2,", "2:", ",", ":", "a0", "b3", "ef", "[0-9a-f][0-9a-f] [0-9a-f][0-9a-f]", "ff", "block", "e[0-9]", "1b", "[0-9A-F][0-9A-F] [0-9A-F][0-9A-F]", "Block [2-9]", "x3[01]?", "lw|ld|sd|sw"}
+			".*", "x*", "q?", "(add|sub|ld)", "x1,", "x2,", "x3,", "1:", "0:", "x1,|x2,", "2:", ",", ":", "a0", "b3", "ef", "[0-9a-f][0-9a-f] [0-9a-f][0-9a-f]", "ff", "block", "e[0-9]", "1b", "x1,\tx", "add\t", "x2,\u00a0x", "Block\t1", "\tx1", "ld\vx", "[0-9A-F][0-9A-F] [0-9A-F][0-9A-F]", "Block [2-9]", "x3[01]?", "lw|ld|sd|sw"}
 		if p.lastFind != "" && r.Chance(1, 4) {
 			// the previous search once more, continued by further words
 			more := pick(r, "x1,", "x2,", "x5,", "x0", "1", "0x", "[0-9]+", ".*", "x[0-9]+,")
@@ -495,6 +497,28 @@ func (p *policy) pointerToTheEdge(o *Obs) (string, bool) {
 	return "", false
 }
 
+// codeAddress spells the address of some instruction of the program, in a
+// third of the cases plus 1-3 (the middle of that instruction).
+func (p *policy) codeAddress() (string, bool) {
+	if p.s == nil || p.s.ld == nil || len(p.s.ld.Instrs) == 0 {
+		return "", false
+	}
+	r := p.r
+	in := p.s.ld.Instrs[r.Intn(len(p.s.ld.Instrs))]
+	if r.Chance(1, 2) { // the last instruction of the code, or of a block
+		in = p.s.ld.Instrs[len(p.s.ld.Instrs)-1]
+		if bs := p.s.ld.Code.Blocks(); len(bs) > 0 && r.Bool() {
+			b := bs[r.Intn(len(bs))]
+			return spellNumber(r, new(big.Int).SetUint64(uint64(b.End())-uint64(r.Range(1, 3))), false), true
+		}
+	}
+	a := uint64(in.Addr)
+	if r.Chance(1, 3) {
+		a += uint64(r.Range(1, 3))
+	}
+	return spellNumber(r, new(big.Int).SetUint64(a), false), true
+}
+
 func (p *policy) valueAnswer(w int) string {
 	r := p.r
 	if r.Chance(1, 7) {
@@ -583,6 +607,13 @@ func (p *policy) choose(o *Obs) Ev {
 	switch o.Kind {
 	case pValue:
 		// never end the stream inside a value prompt (DESIGN 6.5)
+		if o.Reg != "" && (r.Chance(1, 8) || (o.Reg == "#r:w:ip" && r.Bool())) {
+			// a code address, now and then off an instruction start (a
+			// register-indirect jump then lands inside an instruction)
+			if s, ok := p.codeAddress(); ok {
+				return emit(Ev{K: "line", S: s})
+			}
+		}
 		if p.walker && (o.Reg == "x5" || o.Reg == "x6") && r.Chance(5, 6) {
 			return emit(Ev{K: "line", S: spellNumber(r, big.NewInt(int64(0x20000+r.Intn(72))), false)})
 		}
@@ -621,7 +652,15 @@ func (p *policy) choose(o *Obs) Ev {
 			return emit(Ev{K: "overlong"})
 		}
 	}
+	if p.prevMode == "mem" && p.tr.mode == "emu" && r.Bool() {
+		p.memReopen = 2
+	}
+	p.prevMode = p.tr.mode
 	switch {
+	case p.tr.mode == "emu" && p.memReopen == 2:
+		line, p.memReopen = pick(r, "step", "s"), 1
+	case p.tr.mode == "emu" && p.memReopen == 1:
+		line, p.memReopen = "memory memory", 0
 	case p.walker && p.tr.mode == "dis" && p.walkStage < 2:
 		line = []string{"entry", "emulate"}[p.walkStage]
 		p.walkStage++
